@@ -41,7 +41,8 @@ PROBES = ["append_or_insert_into_unterminated_document", "move_all_occurrences_o
           "handles_dropped_and_refetched", "step_without_observation",
           "file_object_dropped_paragraph_kept", "set_through_set_field_methods",
           "view_without_auto_resolve", "multi_line_value_through_set_field_from_raw_string",
-          "key_object_taken_from_iteration", "same_call_repeated"]
+          "key_object_taken_from_iteration", "same_call_repeated",
+          "step_without_any_rendering", "assignment_under_an_invalid_field_name"]
 
 
 def generate(seed, run, tier):
